@@ -48,7 +48,14 @@ FRAGMENTS = [
     '#...diff: type=binary\nliteral 5\r\nzabc\r\n', '\n', '\r\n', '\r', '\x00',
     'é', '日本', '\U0001f600', '﻿', '\t', ' ', 'plain text\n', '=',
     ',', ':', '#.z', '#.preamble:', '#...meta: \n', 'x' * 50,
+    # option lists that invite regex backtracking
+    'a=b, ' * 30, 'k=' * 45 + ',draft\n',
+    'u=http://x/?' + 'p=1&' * 40 + ',X\n',
+    '#.change: ' + 'a=a=' * 25 + ',x\n', ', ' * 40, '=,' * 40,
 ]
+#: "terminates", restated as bounded progress: inputs are <= 4 kB and the
+#: lexer of the unchanged tree needs < 50 ms of CPU time for any of them
+CPU_BUDGET_S = 5.0
 HEADER_TOKEN = re.compile(r'^#\.{0,3}[a-z]+:$')
 
 
@@ -75,12 +82,23 @@ def check_lossless(text, obs, tag):
     case = {'text': text}
     obs.case(text, nontrivial='#' in text)
     obs.count(tag)
+    import time
+    cpu0 = time.thread_time()
     try:
         with Watchdog(20):
             toks = tokenize(text)
     except CaseTimeout:
         obs.count('watchdog_fired')
-        obs.inconclusive_because('tokenising exceeded the 20 s watchdog')
+        used = time.thread_time() - cpu0
+        if used >= CPU_BUDGET_S:
+            # not a wall-clock verdict: this thread itself burnt the CPU
+            # time (>= 200x what the unchanged lexer needs for 4 kB)
+            obs.violation('tokenising_does_not_finish_within_cpu_budget',
+                          case, {'cpu_seconds': round(used, 1),
+                                 'chars': len(text)})
+        else:
+            obs.inconclusive_because('tokenising exceeded the 20 s wall-clock '
+                                     'watchdog with little CPU time used')
         return None
     except Exception as e:
         obs.violation('lexer_raised:%s' % type(e).__name__, case,
@@ -280,6 +298,8 @@ def check_shared_lexer(texts_, obs, rng):
     """One lexer object, several texts at once: token streams consumed
     round-robin in one thread, then in threads under the seeded scheduler.
     Each must equal what a fresh lexer yields for that text alone."""
+    import time
+    cpu0 = time.thread_time()
     try:
         with Watchdog(30):
             solo = [[[i, str(t), v] for i, t, v in
@@ -288,6 +308,11 @@ def check_shared_lexer(texts_, obs, rng):
         # tokenising one of the texts alone already fails: that is the
         # lossless pass's finding, not an interference
         obs.count('shared_lexer_group_skipped(solo run failed)')
+        return
+    if time.thread_time() - cpu0 > 1.0:
+        # pathologically slow alone (the lossless pass judges that): no
+        # point in interleaving it
+        obs.count('shared_lexer_group_skipped(solo run slow)')
         return
     lx = lexer()
     gens = [lx.get_tokens_unprocessed(x) for x in texts_]
